@@ -188,10 +188,10 @@ class Runner(object):
             importlib.import_module(step[1] + ".cmds")
             earlier.append("import:" + step[1])
             return []
-        requested = step[1]
-        if not requested:
-            return []
+        requested = step[1]  # may be empty: a program that asks for no library has no commands at all
         table, dup = expected(libs, requested)
+        if not requested:
+            rec.label("construct:no_library_requested")
         status, got = observed(requested)
         related = [e for e in earlier if any(
             e.split(":", 1)[1].startswith(r) or r.startswith(e.split(":", 1)[1]) for r in requested)]
@@ -280,7 +280,7 @@ def run_state_machine(ctx, rec, n_examples):
                     holder["last"] = (copy.deepcopy(self.trace), novel[0])
                     raise _Violation(novel[0].signature)
 
-            @rule(picks=st.lists(st.integers(0, 50), min_size=1, max_size=4, unique=True), builtin=st.booleans())
+            @rule(picks=st.lists(st.integers(0, 50), min_size=0, max_size=4, unique=True), builtin=st.booleans())
             def construct(self, picks, builtin):
                 pool = list(self.runner.libs) + (list(BUILTIN) if builtin else [])
                 req = []
@@ -332,7 +332,7 @@ def histories(draw):
         if kind in ("construct", "construct_fresh"):
             if kind == "construct_fresh" and draw(st.integers(0, 9)) > 0:
                 kind = "construct"
-            req = draw(st.lists(st.sampled_from(all_libs if draw(st.booleans()) else list(libs)), min_size=1, max_size=4, unique=True))
+            req = draw(st.lists(st.sampled_from(all_libs if draw(st.booleans()) else list(libs)), min_size=0 if draw(st.integers(0, 5)) == 0 else 1, max_size=4, unique=True))
             steps.append([kind, req])
         elif kind == "define":
             steps.append(["define", draw(st.sampled_from(ELSEWHERE)), draw(st.sampled_from(CMD_NAMES + ["Sum", "EEMSRead", "Other"]))])
